@@ -336,6 +336,28 @@ func genC05(seed int64, tier string) []caseOut {
 			NonTri: fmt.Sprintf("%x", h[:8]),
 		})
 	}
+	// flat documents with more empty containers than the nesting limit allows levels: the limit is on
+	// depth, not on how many containers a document holds
+	for _, in := range []string{
+		"[" + strings.Repeat("[],", 10100) + "{}]",
+		`{"a":[` + strings.Repeat("{},", 5100) + `[]],"b":[` + strings.Repeat("[],", 5100) + `{}]}`,
+	} {
+		o, ok := implCanon(in)
+		item := fmt.Sprintf("(%s, None)", cStr(in))
+		idem := true
+		if ok {
+			o2, ok2 := implCanon(o)
+			idem = ok2 && o2 == o
+			item = fmt.Sprintf("(%s, Some %s)", cStr(in), cStr(o))
+		}
+		h := sha256.Sum256([]byte(in))
+		out = append(out, caseOut{
+			Coq:    fmt.Sprintf("(mk_jcase %s %s)", cList([]string{item}), cBool(idem)),
+			Rec:    map[string]interface{}{"input_length": len(in), "impl_accepts": ok, "impl_idempotent": idem},
+			Label:  "value,many-empty-containers",
+			NonTri: fmt.Sprintf("%x", h[:8]),
+		})
+	}
 	// number stream: arbitrary doubles; shortest digits come from strconv (oracle), the layout
 	// is the model's
 	nn := 200
